@@ -22,7 +22,8 @@ EXPLANATION = (
     "dependent on a test of the polynomial's hiding bound, so nothing is drawn (and nothing blinded) without one. R5: "
     "R6d: in Hyrax, whose hiding is not optional, every draw lies on every non-refusing path of the body (or loop "
     "iteration) it belongs to - no row or polynomial is committed / opened without its blinding scalar. "
-    "KZG10::commit refuses with MissingRng when hiding is requested without a generator. R12: the hiding polynomial "
+    "R6f: in Hyrax open every draw that flows into a per-polynomial proof is made inside the per-polynomial loop (one "
+    "mask per proof, not one per call). KZG10::commit refuses with MissingRng when hiding is requested without a generator. R12: the hiding polynomial "
     "has degree hiding_bound + k with k >= 1 in both definitions. Independence and sufficiency of the randomness and the "
     "group identity 'commitment = plain + blinding' are not decided.")
 RULE = ("instances = draw sites x provenance + committers x {rng reaches result, draws under hiding branch} + MissingRng "
@@ -210,6 +211,29 @@ def bypass_of_draw(b, blk):
     return None
 
 
+def bypass_loop_of(b, blk):
+    """blocks of the innermost natural loop containing blk, or None."""
+    succ, pred = b.succ(), b.pred()
+    best = None
+    for x in range(len(b.blocks)):
+        for h in succ[x]:
+            if not b.dominates(h, x):
+                continue
+            body = {h, x}
+            st = [x]
+            while st:
+                y = st.pop()
+                if y == h:
+                    continue
+                for z in pred[y]:
+                    if z not in body:
+                        body.add(z)
+                        st.append(z)
+            if blk in body and (best is None or len(body) < len(best)):
+                best = body
+    return best
+
+
 ALWAYS_HIDING = {"hyrax.commit", "hyrax.open"}
 
 
@@ -285,6 +309,38 @@ def run(rep, ctx, tier):
                         "draw at %s %s" % (t["span"], "happens only under a test of the hiding bound" if ok else
                                            "is not guarded by the polynomial's hiding bound: randomness is consumed "
                                            "(and the commitment blinded) on non-hiding paths"), t["span"])
+        if key == "hyrax.open":
+            # R6f: a proof assembled per polynomial is blinded with randomness drawn for that polynomial: every draw
+            # that flows into a HyraxProof literal sitting in a loop lies in that loop too
+            PROOF = "hyrax::data_structures::HyraxProof"
+            per_item = []
+            for bid in sorted(g.scope):
+                bb = f.bodies[bid]
+                cyc = RNG.cyclic_blocks(bb)
+                for i, blk in enumerate(bb.blocks):
+                    for st in blk["stmts"]:
+                        rv = st["rv"]
+                        if rv.get("k") == "agg" and rv.get("adt") == PROOF and i in cyc:
+                            loop = bypass_loop_of(bb, i)
+                            per_item.append((bid, i, loop, [(bid, o["pl"]["l"]) for o in rv["ops"] if o["k"] in ("copy", "move")]))
+            if not per_item:
+                rep.add("R6f", "%s:fresh-per-polynomial" % key, False, "no HyraxProof literal inside a loop found in open (fail closed)", body.span)
+            stale = None
+            for (dbid, dblk, t) in draws:
+                res = ("CALLRES", dbid, dblk)
+                reached = {s_[0] for s_ in g.reach([res], kinds=(DATA,), typed=False)}
+                lead = R5.leads_to(g, (dbid, dblk))       # where control is, in each caller, when the draw happens
+                for (abid, ablk, loop, ops) in per_item:
+                    if not any(o in reached for o in ops):
+                        continue
+                    at = lead.get(abid, set())
+                    if loop is None or not at or not all(x in loop for x in at):
+                        stale = t["span"]
+            if per_item:
+                rep.add("R6f", "%s:fresh-per-polynomial" % key, stale is None,
+                        "every draw that blinds a per-polynomial proof is made inside the per-polynomial loop" if stale is None else
+                        "the randomness drawn at %s blinds the proofs of all polynomials of one call: it is drawn once, outside "
+                        "the loop that assembles them" % stale, stale or body.span)
         if rng_live is not None:
             e1 = []
             for (dbid, dblk, t) in draws:
